@@ -676,8 +676,14 @@ static void gen_C18(const std::string &tier, uint64_t seed, long idx, Scn &s) {
   s.i["ptype"] = g.chance(0.5) ? 2 : 0;                 // equal plaintext chunks half of the time
   if (is_prod()) { s.i["ptype"] = 2; s.i["sio"] = 0; s.i["inb"] = -1; s.i["outb"] = -1; }
   Bytes sd2 = s.b["seedstr"];
-  if (sd2.size() < 200) sd2.push_back((uint8_t)(1 + g.below(255)));
-  else sd2[7] = (uint8_t)(sd2[7] == 1 ? 2 : sd2[7] - 1);      // seeds are capped at 255 bytes: change one instead of appending
+  // the second seed differs from the first in ONE place, anywhere: a byte changed at a random position, the first byte
+  // changed, or a byte appended (seeds are capped at 255 bytes) - an IV derivation that ignores part of the seed shows
+  auto bump = [](uint8_t v) { return (uint8_t)(v == 1 ? 2 : v - 1); };
+  int how = sd2.empty() ? 2 : (int)g.below(3);
+  if (how == 2 && sd2.size() >= 200) how = 0;
+  if (how == 0) { size_t k = g.below(sd2.size()); sd2[k] = bump(sd2[k]); }
+  else if (how == 1) sd2[0] = bump(sd2[0]);
+  else sd2.push_back((uint8_t)(1 + g.below(255)));
   s.b["seedstr2"] = sd2;
   pick_sched(g, s, 0, T, false);
   if (is_prod()) { s.i["st0"] = simsched::ST_STICKY; s.i["sp0"] = 9999; }
